@@ -9,8 +9,26 @@
 
 package vgirpc
 
+// Since the repair of the second C28 defect the scan is quote-aware: a value is cut out only at a
+// position that is outside every quoted value (the flag toggled at each double quote is off),
+// begins the header or follows a separator, and where the header continues with name=" ; the
+// value is what follows up to the next double quote.
+//
 //@ func parseQuotedParam
 //@   property C28
 //@   nopanic
-//@   loop 0 invariant 0 <= from && from <= len(header)
-//@   loop 0 decreases len(header) - from
+//@   loop 0 invariant 0 <= i && i <= len(header)
+//@   at call strings.Index assert [atboundary] !inQuote && 0 <= i && i < len(header) && (i == 0 || header[i-1] == 32 || header[i-1] == 44)
+//@   at call strings.Index assert [aftername] arg0 == header[i+len(key):] && arg1 == "\""
+//@   at call strings.HasPrefix assert [nameandquote] arg0 == header[i:] && arg1 == key
+//
+// The metadata URL is emitted inside a quoted parameter: every double quote in it is replaced by
+// %22 before it is returned (repaired defect: net/url keeps a double quote verbatim in query and
+// host, which ended the quoted value early).
+//
+//@ func resourceMetadataURLFromResource
+//@   property C28
+//@   pathvar escaped string
+//@   at call strings.ReplaceAll assert [noquotes] arg1 == "\"" && arg2 == "%22"
+//@   at call strings.ReplaceAll setflag escaped result
+//@   ensures [local_escapedreturned_ret2] result0 == escaped && result1 == nil
